@@ -261,6 +261,163 @@ example : isP2WPKHScript (p2wpkhProgram (List.replicate 20 7)) = true :=
   (p2wpkh_recognised _ (by decide)).mpr (by decide)
 example : isBCRPScript (registerProgram [0x51]) = true ∧ isBCRPScript (registerProgram []) = false := by decide
 
+/-! ### conversely: what the segwit recognisers accept is exactly what the builders produce -/
+
+theorem specOp_op {pc : Nat} {b : UInt8} {t : Bytes} {i : Inst} (h : specOp pc (b :: t) = .ok i) : i.op = b := by
+  obtain ⟨_, henc⟩ := specOp_ok h
+  have hh := henc.head
+  have hpos := henc.pos
+  cases hl : i.len with
+  | zero => omega
+  | succ k => rw [hl] at hh; simpa using hh.symm
+
+theorem specProg_ok_nil {fuel pc : Nat} {s : Bytes} (h : specProg fuel pc s = .ok []) : s = [] := by
+  cases fuel with
+  | zero => simp [specProg] at h
+  | succ f =>
+    cases s with
+    | nil => rfl
+    | cons b t =>
+      unfold specProg at h
+      simp only [] at h
+      cases hsp : specOp pc (b :: t) with
+      | error e => rw [hsp] at h; cases h
+      | ok i =>
+        rw [hsp] at h
+        simp only [] at h
+        cases hrec : specProg f (pc + i.len) ((b :: t).drop i.len) with
+        | error e => rw [hrec] at h; cases h
+        | ok rest => rw [hrec] at h; cases h
+
+/-- a program that parses to `OP_0, DATA_n` (1 ≤ n ≤ 75) is `00 n <n bytes>` and nothing else -/
+theorem p2w_shape (p : Bytes) (n : Nat) (hn : 1 ≤ n ∧ n ≤ 75) (hp : p.length < 4294967296)
+    (i0 i1 : Inst) (hparse : parseProgram p = .ok [i0, i1]) (h0 : i0.op.toNat = 0) (h1 : i1.op.toNat = n) :
+    ∃ h : Bytes, h.length = n ∧ i1.data = h ∧ p = 0x00 :: byte n :: h := by
+  have hlen : p.length ≤ maxInt32 := by
+    by_cases hl : p.length ≤ maxInt32
+    · exact hl
+    · rw [parseProgram_long p (by omega) hp] at hparse; cases hparse
+  rw [parseProgram_eq p hlen] at hparse
+  cases p with
+  | nil => simp [specProg] at hparse
+  | cons b t =>
+    unfold specProg at hparse
+    simp only [] at hparse
+    cases hsp : specOp 0 (b :: t) with
+    | error e => rw [hsp] at hparse; cases hparse
+    | ok j0 =>
+      rw [hsp] at hparse
+      simp only [] at hparse
+      cases hrec : specProg (t.length + 1) (0 + j0.len) ((b :: t).drop j0.len) with
+      | error e => simp only [List.length_cons] at hparse; rw [hrec] at hparse; cases hparse
+      | ok rest =>
+        simp only [List.length_cons] at hparse
+        rw [hrec] at hparse
+        injection hparse with hparse
+        injection hparse with e0 erest
+        subst e0 erest
+        have hb : b = 0 := by
+          have := specOp_op hsp
+          rw [this] at h0
+          exact UInt8.toNat_inj.mp (by simpa using h0)
+        subst hb
+        have hj0 : j0 = ⟨0, 1, []⟩ := by
+          have := @specOp_plain 0 0 t (by decide)
+          rw [this] at hsp; injection hsp with hsp; exact hsp.symm
+        subst hj0
+        simp only [List.drop_succ_cons, List.drop_zero, Nat.zero_add] at hrec
+        cases t with
+        | nil => simp [specProg] at hrec
+        | cons c u =>
+          unfold specProg at hrec
+          simp only [] at hrec
+          cases hsp1 : specOp 1 (c :: u) with
+          | error e => rw [hsp1] at hrec; cases hrec
+          | ok j1 =>
+            rw [hsp1] at hrec
+            simp only [] at hrec
+            cases hrec2 : specProg (u.length + 1) (1 + j1.len) ((c :: u).drop j1.len) with
+            | error e => simp only [List.length_cons] at hrec; rw [hrec2] at hrec; cases hrec
+            | ok rest2 =>
+              simp only [List.length_cons] at hrec
+              rw [hrec2] at hrec
+              injection hrec with hrec
+              injection hrec with e1 erest2
+              subst e1 erest2
+              have hc : c.toNat = n := by rw [← specOp_op hsp1]; exact h1
+              have hcb : c = byte n := by
+                apply UInt8.toNat_inj.mp; rw [hc, byte_toNat (by omega)]
+              -- the DATA_n branch
+              unfold specOp at hsp1
+              have c1 : ¬ (Ops.OP_1 ≤ c.toNat ∧ c.toNat ≤ Ops.OP_16) := by simp only [Ops.OP_1]; omega
+              have c2 : Ops.OP_DATA_1 ≤ c.toNat ∧ c.toNat ≤ Ops.OP_DATA_75 := by
+                simp only [Ops.OP_DATA_1, Ops.OP_DATA_75]; omega
+              simp only [c1, if_false, c2, and_self, if_true] at hsp1
+              obtain ⟨hfit, rfl⟩ := specData_ok hsp1
+              simp only [] at hrec2
+              have hnil := specProg_ok_nil hrec2
+              have hul : u.length = c.toNat := by
+                have := congrArg List.length hnil
+                simp only [List.length_drop, List.length_cons, List.length_nil] at this
+                omega
+              refine ⟨u, by omega, ?_, ?_⟩
+              · simp only []; exact List.take_of_length_le (by omega)
+              · rw [hcb]
+
+/-- **builders_recognised, converse (1).** Every program IsP2WPKHScript accepts is
+    `P2WPKHProgram(h)` for the 20-byte `h` that GetHashFromStandardProg returns -/
+theorem p2wpkh_accepts_only_built (p : Bytes) (hp : p.length < 4294967296)
+    (h : isP2WPKHScript p = true) :
+    ∃ hash : Bytes, hash.length = 20 ∧ p = p2wpkhProgram hash ∧ getHashFromStandardProg p = .ok hash := by
+  unfold isP2WPKHScript at h
+  cases hpar : parseProgram p with
+  | error e => rw [hpar] at h; simp at h
+  | ok is =>
+    rw [hpar] at h
+    match is, h, hpar with
+    | [i0, i1], h, hpar =>
+      simp only [opIs, Ops.OP_0, Ops.OP_DATA_20] at h
+      have h0 : i0.op.toNat = 0 := by
+        by_cases hx : i0.op.toNat = 0
+        · exact hx
+        · simp [hx] at h
+      have h1 : i1.op.toNat = 20 := by simp [h0] at h; exact h.1
+      obtain ⟨hash, hl, hd, rfl⟩ := p2w_shape p 20 (by omega) hp i0 i1 hpar h0 h1
+      refine ⟨hash, hl, ?_, ?_⟩
+      · rw [p2w_eq]
+        have : pushDataBytes hash = byte 20 :: hash := by
+          simp [pushDataBytes, hl, u8, Ops.OP_DATA_1]
+        simp [this, byte]
+      · unfold getHashFromStandardProg
+        rw [hpar]; simp [hd]
+
+/-- **builders_recognised, converse (2).** Every program IsP2WSHScript accepts is
+    `P2WSHProgram(h)` for the 32-byte `h` that GetHashFromStandardProg returns -/
+theorem p2wsh_accepts_only_built (p : Bytes) (hp : p.length < 4294967296)
+    (h : isP2WSHScript p = true) :
+    ∃ hash : Bytes, hash.length = 32 ∧ p = p2wshProgram hash ∧ getHashFromStandardProg p = .ok hash := by
+  unfold isP2WSHScript at h
+  cases hpar : parseProgram p with
+  | error e => rw [hpar] at h; simp at h
+  | ok is =>
+    rw [hpar] at h
+    match is, h, hpar with
+    | [i0, i1], h, hpar =>
+      simp only [opIs, Ops.OP_0, Ops.OP_DATA_32] at h
+      have h0 : i0.op.toNat = 0 := by
+        by_cases hx : i0.op.toNat = 0
+        · exact hx
+        · simp [hx] at h
+      have h1 : i1.op.toNat = 32 := by simp [h0] at h; exact h.1
+      obtain ⟨hash, hl, hd, rfl⟩ := p2w_shape p 32 (by omega) hp i0 i1 hpar h0 h1
+      refine ⟨hash, hl, ?_, ?_⟩
+      · rw [p2wsh_eq_p2wpkh, p2w_eq]
+        have : pushDataBytes hash = byte 32 :: hash := by
+          simp [pushDataBytes, hl, u8, Ops.OP_DATA_1]
+        simp [this, byte]
+      · unfold getHashFromStandardProg
+        rw [hpar]; simp [hd]
+
 /-- **mutual exclusion.** On ANY byte string at most one of the five recognisers answers
     true (IsP2WScript is by definition the union of the first three). -/
 theorem recognisers_exclusive (p : Bytes) :
